@@ -62,8 +62,9 @@ end
 def showPDec : PDec → String
   | .strict s => "strict:" ++ showSchema s
   | .emptyIface => "emptyiface"
-  | .loose n => s!"loose{n}"
-  | .nilOr s => "nilor:" ++ showSchema s
+  | .fixedN n => s!"fixedN{n}"
+  | .nilOr fs => "nilor:" ++ showSchema (.struct fs)
+  | .signers => "signers:" ++ showSchema signersSchema
   | .asset => "asset"
   | .candidate => "candidate"
 
@@ -79,6 +80,9 @@ def schemaByName : String → Option Schema
   | "AssetFields" => some (.struct assetFields)
   | _ => none
 
+/-- the code as it is: every decoder of the typed layer with the strictness fixes (`fx = true`) -/
+def fx : Bool := true
+
 /-- typed decode followed by typed encode: "ok <hex of the re-encoding>" or "err" -/
 def typedRe (name : String) (b : List UInt8) : Option String :=
   let fin (r : Option Item) : Option String :=
@@ -86,12 +90,12 @@ def typedRe (name : String) (b : List UInt8) : Option String :=
   let plain (s : Schema) : Option String :=
     match decode b with
     | .error _ => some "err"
-    | .ok it => fin ((decodeS s it).bind (encodeS s))
+    | .ok it => fin ((decodeS fx s it).bind (encodeS s))
   match name with
   | "header" =>
     match decode b with
     | .error _ => some "err"
-    | .ok it => fin ((decodeHeader emptyTrieHash it).bind (encodeHeader emptyTrieHash))
+    | .ok it => fin ((decodeHeader fx emptyTrieHash it).bind (encodeHeader emptyTrieHash))
   | "tx" => plain txSchema
   | "deputynode" => plain deputyNodeSchema
   | "blockconfirm" => plain blockConfirmSchema
@@ -102,15 +106,19 @@ def typedRe (name : String) (b : List UInt8) : Option String :=
   | "asset" =>
     match decode b with
     | .error _ => some "err"
-    | .ok it => fin ((decodeAsset it).bind encodeAsset)
+    | .ok it => fin ((decodeAsset fx it).bind encodeAsset)
   | "changelog" =>
     match decode b with
     | .error _ => some "err"
-    | .ok it => fin ((decodeChangeLog it).bind encodeChangeLog)
+    | .ok it => fin ((decodeChangeLog fx it).bind encodeChangeLog)
+  | "block" =>
+    match decode b with
+    | .error _ => some "err"
+    | .ok it => fin ((decodeBlock emptyTrieHash it).bind (encodeBlock emptyTrieHash))
   | "changelogs" =>
     match decode b with
     | .error _ => some "err"
-    | .ok it => fin ((decodeLogSlice it).bind encodeLogSlice)
+    | .ok it => fin ((decodeLogSlice fx it).bind encodeLogSlice)
   | _ => none
 
 def step (s : Unit) (w : List String) : Unit × String :=
